@@ -48,6 +48,10 @@ CHECKS = {
             "DESIGN.md §3 C12",
             "All histories over {add, publish, remove, trigger(none|+2 ticks), one read, drain, tick 0.5 s / 1.5 s} to depth 7 (quick) / 10 (thorough) for max_transfer_count 1..3 x carousel none/delay/interval x immediate stop x publish mode; a reference counter per object fed by Subscriber events and independently decoded packets decides: never more transfers than configured, finished or removed objects disappear from is_added / nb_objects / get_objects_in_fdt, nb_transfers equals the Stop events (and the wire at quiescent points), removal semantics (nothing after removing a waiting object; at most one flagged packet after a forced stop; no new transfer after removal), a read that returns None never leaves an eligible transfer or a due carousel turn behind, drains terminate.",
             "Trusted: rfc.rs, fingerprint (as C11), 2 objects of 2-3 packets; carousel clause applied per turn for max_transfer_count > 1 (DESIGN §5)."),
+    "C13": ("model_checking", "exhaustive workload grid x one deviation (object added and published at every packet index) on the real Sender, scheduling oracle on every packet", "seqx",
+            "DESIGN.md §3 C13",
+            "Every workload of 1..3 queues x 0..3 objects per queue (sizes empty / 1 symbol / 2 blocks / 3 blocks) x multiplex_files 0..3 x interleave_blocks 1..3 x add order (high or low priority first) x No-Code / Reed-Solomon, and for each the addition+publication of a further object at every packet index into every queue, is run on the real Sender to quiescence; on every packet: no lower-queue packet while a published higher-queue object still has packets to send, first transfers start in add order per queue, at most max(1,multiplex) objects in transmission per queue, exactly-one-packet round-robin fairness between objects in flight, at most interleave_blocks partly sent blocks, blocks opened in increasing SBN, everything published is eventually sent.",
+            "Trusted: rfc.rs decode; start times / pacing / carousel are excluded here (C14)."),
 }
 
 NOT_YET = {}
